@@ -38,7 +38,7 @@ def bounds(tier):
 
 
 def goals(tier):
-    return ["records-sharing-an-identifier", "two-digit-citation-index", "shared-reference-merged", "several-citations-on-one-feature", "renumbered", "dropped-feature-cites", "no-citations", "repeated-call"]
+    return ["records-sharing-an-identifier", "two-digit-citation-index", "shared-reference-merged", "several-citations-on-one-feature", "renumbered", "dropped-feature-cites", "no-citations", "repeated-call", "cited-feature-with-unusual-qualifiers", "cited-records-fully-annotated"]
 
 
 def configs(refs_menu):
@@ -64,7 +64,7 @@ def configs(refs_menu):
     return out
 
 
-def build(k, vc, mc, rotated=False, strip=False, ids="distinct"):
+def build(k, vc, mc, rotated=False, strip=False, ids="distinct", shape=None):
     g = gen.geometry_of(gen.enzyme(ENZ))
     M, V = gen.generic_classes(ENZ)
     base = asm.base_scenario(ENZ, k)
@@ -90,6 +90,20 @@ def build(k, vc, mc, rotated=False, strip=False, ids="distinct"):
         ann = {"topology": "circular"}
         if rf:
             ann["references"] = rf
+        la = None
+        if shape == "string-qualifiers":
+            # what hand-written code produces: plain-string and tuple qualifier values next to the citation list
+            for f in feats:
+                f.qualifiers["label"] = f.qualifiers["label"][0]
+                f.qualifiers["note"] = ("first", "second")
+        elif shape == "annotated":
+            feats = list(feats) + gen.decorations(len(s))
+            la = {"idx": list(range(len(s)))}
+            ann["keywords"] = ["k"]
+        if la is not None and ids != "default":
+            rid = name if ids == "distinct" else "plasmid"
+            r = CircularRecord(Seq(s), id=rid, name=rid, features=feats, annotations=ann, letter_annotations=la, dbxrefs=["db:" + name])
+            return (r >> rot) if rotated else r
         if ids == "default":
             r = CircularRecord(Seq(s), features=feats, annotations=ann)           # Biopython's default identifier
         else:
@@ -111,8 +125,8 @@ def ref_id(r):
 def check(st, scn):
     k, vc, mc, calls, rotated = scn["k"], scn["vc"], scn["mc"], scn["calls"], scn.get("rotated", False)
     gen.prime(list(gen.generic_classes(ENZ)))
-    records, ents = build(k, vc, mc, rotated, ids=scn.get("ids", "distinct"))
-    plain_records, plain_ents = build(k, vc, mc, rotated, strip=True, ids=scn.get("ids", "distinct"))
+    records, ents = build(k, vc, mc, rotated, ids=scn.get("ids", "distinct"), shape=scn.get("shape"))
+    plain_records, plain_ents = build(k, vc, mc, rotated, strip=True, ids=scn.get("ids", "distinct"), shape=scn.get("shape"))
     before = {n: snapshot.record_snapshot(r) for n, r in records.items()}
     order = ["m1"] + (["m2"] if k == 2 else [])
     po = asm.run_assemble(plain_ents["v"], [plain_ents[n] for n in order])
@@ -149,7 +163,7 @@ def check(st, scn):
                 st.violation("references", "cited-reference-missing-from-product", sc, cited, titles)
                 ok = False
                 break
-        feats = {f.qualifiers.get("label", ["?"])[0]: f for f in prod.features if f.type != "source"}
+        feats = {asm.qual1(f, "label", "?"): f for f in prod.features if f.type != "source"}
         for label, want in expect.items():
             f = feats.get(label)
             if f is None:
@@ -243,6 +257,15 @@ def run_unit(unit, st, tier):
                     st.scenario("cited", None, calls=b["repeated_calls"] + 1)
                     st.nontrivial += 1
                     st.goal("records-sharing-an-identifier")
+            # unusual but legal record contents next to the citations: same expectations, at both rotations
+            if k == 2 and vc["kept"] and mc["kept"] and not mc["dropped"] and not vc["dropped"] and len(vc["refs"]) <= 3 and len(mc["refs"]) <= 3 and not rotated:
+                for shape in ("string-qualifiers", "annotated"):
+                    for rot2 in (False, True):
+                        s2 = dict(scn, shape=shape, rotated=rot2)
+                        check(st, s2)
+                        st.scenario("cited", None, calls=b["repeated_calls"] + 1)
+                        st.nontrivial += 1
+                        st.goal("cited-feature-with-unusual-qualifiers" if shape == "string-qualifiers" else "cited-records-fully-annotated")
     st.sample(dict(k=k, vc=vc, mc=configs(M_REFS)[-1], calls=2))
 
 
